@@ -93,9 +93,9 @@ pub fn run() -> Report {
     }
     // negative control: coins without AuxPoW never have a section, whatever the version
     for c in COINS.iter().filter(|c| c.auxpow_from.is_none()) {
-        cases.push(Case { coin: c.name, versions: vec![1, 0x10100, 0x10101, 0x10102, 0x620101, 0x620102, 0x620103, 0x7fff_ffff], section: default_sec.clone(), label: "negative-control".into() });
+        cases.push(Case { coin: c.name, versions: vec![1, 0x10100, 0x10101, 0x10102, 0x620101, 0x620102, 0x620103, 0x7fff_ffff, 0x8000_0000, 0xffff_fffe, 0xffff_ffff], section: default_sec.clone(), label: "negative-control".into() });
     }
-    rep.rule = "namecoin/dogecoin: all 27 orders of below/at/above-threshold versions in a 3-block chain; full product parent-coinbase form (legacy, legacy 0xfd-script, segwit) x coinbase-branch {0,1,2} x chain-branch {0,1,2} x masks {0,1,0xffffffff}; long-branch sweeps across the 0xfd CompactSize boundary; six other coins with 8 versions around both thresholds (never a section); --verify on; non-trivial = distinct case with >= 1 block carrying a section, or a negative control".into();
+    rep.rule = "namecoin/dogecoin: all 27 orders of below/at/above-threshold versions in a 3-block chain; full product parent-coinbase form (legacy, legacy 0xfd-script, segwit) x coinbase-branch {0,1,2} x chain-branch {0,1,2} x masks {0,1,0xffffffff}; long-branch sweeps across the 0xfd CompactSize boundary; six other coins with 11 versions around both thresholds and up to 0xffffffff (never a section); --verify on; non-trivial = distinct case with >= 1 block carrying a section, or a negative control".into();
     rep.bound = json!({"cases": cases.len(), "max_branch": if thorough { 1000 } else { 0xfd }});
     let root = refmodel::world::scratch_root();
     let parts = par_fold(
